@@ -21,17 +21,15 @@ PR_FLAGS = (0, 1, 2, 3, 5, 7, 9, 11)
 # jbl_ptr_serialize writes '~' and '/' inside a segment back unescaped (defect 6, notes/jbinn.md): a pointer utility outside the
 # statement of C14 - measured and counted; judged only with VERIF_C14_JUDGE_OPEN=1
 JUDGE_OPEN = os.environ.get("VERIF_C14_JUDGE_OPEN") == "1"
-# Round 7 (defects of the unmodified library reported by an adversary, reproduced; notes/jbinn.md "Round 7"); each is measured
-# and counted, and judged only with its switch until the integrator commits the repair (default = tolerate):
-#  VERIF_C14_JUDGE_SIZE=1    jbl_size() of a fresh jbl_clone / of a document just changed by jbl_set_* is stale (0 / the old size)
-#                            until a read writes the header                                  fixes/jbinn-size-stale-header.diff
-#  VERIF_C14_JUDGE_SCLONE=1  jbl_clone() of a scalar value (a result of jbl_at) fails AND leaves a leaked struct in *targetp
-#                                                                                             fixes/jbinn-clone-scalar-leak.diff
+# Round 7: jbl_size() of a fresh jbl_clone / of a document just changed by jbl_set_* must be the size jbl_as_buf() reports (stale
+# until a read wrote the header before 0c2e1d6), and jbl_clone() of a scalar value (a result of jbl_at) must fail cleanly with
+# *targetp == 0 (before c9ab017 it read the value's bytes as a container header) - both judged.
 #  VERIF_C14_JUDGE_FOREIGN=1 jbl_to_node(pool) of a buffer holding a binn type without a JSON counterpart (blob ...) free()s pool
-#                            memory: abort.  The `dec` lines with such buffers are only GENERATED with the switch (they kill the
-#                            harness on the unrepaired library)                           fixes/jbinn-create-node-pool-free.diff
-JUDGE_SIZE = os.environ.get("VERIF_C14_JUDGE_SIZE") == "1"
-JUDGE_SCLONE = os.environ.get("VERIF_C14_JUDGE_SCLONE") == "1"
+#                            memory: abort.  Outside the statement of C14 (no JSON document encodes to such a buffer), candidate
+#                            repair fixes/jbinn-create-node-pool-free.diff.  The `dec` lines with such buffers are only GENERATED
+#                            with the switch (they kill the harness on the unrepaired library)
+JUDGE_SIZE = True
+JUDGE_SCLONE = True
 JUDGE_FOREIGN = os.environ.get("VERIF_C14_JUDGE_FOREIGN") == "1"
 # clone independence (indc / indp cells): a clone that still writes into the buffer of its source (jbl_clone_into_pool until
 # 3cda5bf; the harness reports ALIAS and disarms it) is a violation
